@@ -37,6 +37,9 @@ THEOREMS = [
     # an abandoned (parked, then cancelled) receive_* leaves no trace in the session
     'Ws.recvAbandoned_noop', 'Ws.recvAbandoned_ok', 'Ws.recvAbandoned_wrong_state', 'Ws.abandoned_receive_session_continues', 'Ws.recvAbandoned_inv', 'Ws.recvAbandoned_sane',
     'Wp.recvAbandoned_noop', 'Wp.proj_recvAbandoned',
+    # the SERVER's behaviour as an input: a close-code policy (`refused`) and an exception of any class whose message may name the close code (`faultIcc`)
+    'Ws.close_refused', 'Ws.refused_error_close_falls_back', 'Ws.refused_error_close_without_hint_escapes',
+    'Ws.stopPump_refused', 'Ws.stopPump_fault', 'Ws.stopPump_faultIcc', 'Wp.proj_refuses',
     # the arguments of accept() (WsAccept.lean): the event is legal or the documented error is raised
     'Wa.accept_event_legal', 'Wa.accept_forbidden_header_raises', 'Wa.accept_event_only_if_checked', 'Wa.accept_is_op',
     'Wa.process_ok', 'Wa.forbidden_rejected', 'Wa.forbidden_rejected_valueError', 'Wa.every_spelling_forbidden', 'Wa.every_spelling_rejected',
@@ -53,11 +56,14 @@ STATEMENTS = {
     'Ws.send_after_disconnect': 'a send on an accepted socket whose pump has seen the disconnect raises WebSocketDisconnected with the client\'s code and hands nothing to the server',
     'Ws.close_after_closed_silent': 'close() on a closed socket or with the disconnect flag set sends nothing',
     'Ws.close_records_disconnect': 'close() on a not-yet-closed socket whose disconnect flag is set (code c) sends nothing, returns normally and leaves the socket CLOSED with code c, so later send_*/receive_* raise WebSocketDisconnected(c) (the 606f7a8 repair)',
-    'Ws.close_code_validation_exact': 'close(code) raises the invalid-close-code ValueError exactly for code < 1000, 1004..1006 and 1015..1999, in every state',
-    'Ws.close_sends': 'close() with no code (1000) or a valid code, on a socket not closed and not known lost, with a working send: exactly one close event with that code; the reason is attached iff (a reason was given or the code has a default reason) and the server supports reasons (spec >= 2.3); the state becomes CLOSED with that code',
+    'Ws.close_code_validation_exact': 'close(code) raises the invalid-close-code ValueError exactly for code < 1000, 1004..1006 and 1015..1999, in every state (given that the server itself does not answer the close event with a ValueError saying so)',
+    'Ws.close_sends': 'close() with no code (1000) or a valid code, on a socket not closed and not known lost, with a working send (no faulty call, the code not refused by the server\'s policy): exactly one close event with that code; the reason is attached iff (a reason was given or the code has a default reason) and the server supports reasons (spec >= 2.3); the state becomes CLOSED with that code',
     'Ws.http_error_close_code': 'HTTPError(s)/HTTPStatus(s) (0 <= s <= 999; an unrouted path is HTTPError 404 -> 3404, a missing responder HTTPError 405 -> 3405) reaching the default handlers on an open socket send exactly one close event with code 3000 + s',
     'Ws.unexpected_error_close_code': 'any other exception (no custom handler) closes with ws_options.error_close_code, or with 3011 when that code is not a valid close code',
     'Ws.raised_error_closes_open_socket': 'the class of an exception says nothing about the handled connection: a responder/middleware step that raises ANY exception other than HTTPError/HTTPStatus - in particular WebSocketDisconnected(code) raised by hand or by an operation on another connection\'s socket (relay), OperationNotAllowed, PayloadTypeError, ValueError, OSError - and lets it propagate, on a socket that is not closed and has no observed disconnect, default handlers, working send: exactly one close event with error_close_code (3011 if invalid) is sent (the 403 denial before accept) and nothing escapes',
+    'Ws.close_refused': 'close(code) on a socket that is neither closed nor known lost, when the server\'s policy refuses that code: the event is handed to the server once, the server\'s own exception (whatever its class) reaches the caller untranslated, and the socket is NOT marked closed (only the pump is stopped), so a later close with another code is still sent',
+    'Ws.refused_error_close_falls_back': 'a close is sent when the responder fails while the client is connected even if the SERVER refuses the configured code: for every exception other than HTTPError/HTTPStatus (default handlers), socket not closed, no observed disconnect, error_close_code a code falcon accepts but the server\'s policy refuses, the server\'s exception of ANY class (OSError, ValueError, plain Exception, TypeError, its own class - w.fault is arbitrary) saying \'invalid close code\', and 3011 not refused: the server is handed the refused close once, then the close 3011, which is delivered; nothing escapes; the socket is CLOSED with 3011',
+    'Ws.refused_error_close_without_hint_escapes': 'the same situation with a server exception that does not name the close code: the refused close is the only event, no fallback is tried, and the server\'s own exception is what escapes to the server',
     'Ws.reason_only_if_supported': 'when the server\'s spec version has no close reasons (< 2.3), no close event of the session - issued by the responder, a middleware, an error handler or the framework itself - carries a reason; for every script, inbox, fault, routing outcome and flag sequence',
     'Ws.rejectFirst_reason': 'the close 1011 answering a first event that is not websocket.connect carries a reason iff the server supports it',
     'Wp.sent_payloads_in_order_unchanged': 'for every media-handler pair and every responder script of send_text / send_data / send_media calls (any per-call catch behaviour) on an accepted, connected socket with a working server send, each message listed with its wire form (text verbatim under the text key, bytes verbatim under the bytes key, a document serialized by the handler of its payload_type under that type\'s key): the send calls the script adds are exactly those websocket.send events, in order, each once, each successful; every call returns None, nothing escapes, the socket stays ACCEPTED',
@@ -85,11 +91,15 @@ STATEMENTS = {
 }
 TRUSTED = [
     'asyncio.wait_for / Task.cancel deliver CancelledError at the await the operation is parked on; the event loop clock is replaced by a virtual clock for the whole check (loop.time), so timeouts fire exactly when the harness advances it',
-    'the scripted ASGI server of the harness (receive/send callables written from the ASGI WebSocket spec, not falcon.testing) and its fault injection',
+    'the scripted ASGI server of the harness (receive/send callables written from the ASGI WebSocket spec, not falcon.testing) and its fault injection: a faulty call index and a close-code policy, '
+    'raising one exception kind per session (class: OSError / ValueError / Exception / TypeError / RuntimeError / the server\'s own class; message naming the close code as invalid or not)',
     '"the session did not terminate" is decided by 4000 turns of the event loop without the application task finishing (no wall clock)',
     'C18 (the buffered receiver hands events out FIFO): the model reads the client script in order in both queue modes',
 ]
 ASSUMPTIONS = [
+    'a server that refuses a close event saying \'invalid close code\' (Autobahn under Daphne: only 1000 and 3000-4999) is answered with the fallback code 3011 by the framework\'s error close, whatever the class of the server\'s exception; '
+    'a refusal that does not name the code, or a refused fallback, is reported to the server (the exception escapes) - the statement\'s "a close is always sent" is read as: every documented attempt is made',
+    'a media document arrives unchanged when the peer reads the same members with the same values in the same ORDER (list(d.items()), not dict ==); a dict key that is not a str is written as JSON writes it (int -> its decimal string)',
     'the server\'s receive() never raises when max_receive_queue > 0 (the statement quantifies over failing send only); with queue 0 a receive() that raises when starved is part of the generated space',
     'responder / middleware / error-handler scripts are straight-line op lists with per-op catch-and-continue of the documented errors (OperationNotAllowed, WebSocketDisconnected, PayloadTypeError, ValueError); ops: accept (headers, subprotocol, non-str subprotocol), close (9 code kinds incl. non-int, with/without reason), send text/data/media, receive text/data/media, raise HTTPError/HTTPStatus/RuntimeError/app exception, '
     'raise an exception of one of the framework\'s own classes (WebSocketDisconnected with/without code or a subclass of it, OperationNotAllowed, PayloadTypeError, ValueError incl. the invalid-close-code message, OSError, '
@@ -112,6 +122,10 @@ RULE = ('random sessions: responder scripts of 0..8 ops x client scripts of 0..6
         'raised by hand or produced by a real operation on a second WebSocket whose own client has left / is unaccepted / sent the wrong payload type; in responder, middleware and custom error-handler scripts, '
         '40 % of them uncaught: exception class and state of the handled connection are independent dimensions) '
         'x route (responder / unrouted / no on_websocket) x first event not connect x error_close_code valid/reserved/<1000 x random yields in the server callables; '
+        'THE SERVER\'S BEHAVIOUR is an input: its send raises at a call index and / or (30 % of the sessions) for every close event whose code its POLICY refuses (10 policies: 1011 only, the Autobahn set 1001-2999, 1011 + 3011, 3011, 1000, 3403-3405 + 4000, ...), '
+        'with one of 17 exception kinds = class (OSError, OSError with a cause, ValueError, plain Exception, TypeError, RuntimeError, the server\'s own class) x message (says \'invalid close code <n> ...\' in some letter case / the two messages _translate_webserver_error looks for / neither); '
+        'plus directed: 13 kinds x error_close_code 1011 / 4000 / 999 x 4 policies x 9 endings (unexpected exception before / after accept, in middleware, foreign WebSocketDisconnected, HTTP error, unrouted, plain return, a responder\'s own close that is refused) x queue 0 / 4; '
+        'media DOCUMENTS: objects with members not in sorted order and (30 % of the objects) keys of mixed types (int and str); the oracle reads the wire text with object_pairs_hook, i.e. compares member ORDER, not dict equality; '
         'every send carries a random payload (text over an alphabet with quotes, backslash, control characters, NUL, U+2028, BOM, non-BMP; bytes incl. 00/FF/invalid UTF-8; '
         'nested JSON documents without floats, via the JSON TEXT handler or the stub BINARY handler), every client message a random payload (valid JSON with whitespace padding, '
         'non-JSON text, binary) with the other key absent or None; plus payload sessions (accept, then <= 10 send/receive ops, <= 8 client messages) that also contain what only the '
@@ -271,7 +285,25 @@ def foreign_want(tok):
     if c.startswith('wsd'):
         return 'WSD:%d' % (1000 if c[3:] in ('n', '0') else int(c[3:]))
     return {'ona': 'ONA', 'pte': 'PTE', 'vei': 'VEI', 'veo': 'VEO', 'ose': 'OSE', 'ae': 'AE'}[c]
-FAULTS = ['os', 'os', 'os', 'os1001', 'ok1000', 'sub', 'other', 'other']
+FAULTS = ['os', 'os', 'os', 'os1001', 'ok1000', 'sub', 'other', 'other',
+          # the class of the server's exception and what its message says are independent: ValueError / OSError / plain Exception / TypeError / the server's
+          # own class, each with a message that does or does not say 'invalid close code' (Autobahn: Exception('invalid close code 1011 (must be ...)'))
+          'val', 'valicc', 'osicc', 'excicc', 'excicc', 'type', 'typeicc', 'custom', 'customicc']
+# the SERVER's policy on close codes: a close event with one of these codes is refused (send raises the session's fault), whoever sends it
+REFUSE_SETS = [[1011], [1011], [1001, 1003, 1007, 1011, 1014, 2000],        # Autobahn / Daphne: only 1000 and 3000-4999 (restricted to the codes that occur here)
+               [1011, 3011], [3011], [1000], [1000, 1011], [4000, 3403, 3404, 3405], [1001, 3001, 4999], [1003, 1007, 1014, 2000, 4000]]
+
+
+def fault_class(kind):
+    """the fault as the model sees it: the exception class (os / val / other, and the two message-triggered translations)"""
+    if kind in ('os', 'os1001', 'ok1000', 'sub'): return kind
+    if kind == 'osicc': return 'os'
+    if kind.startswith('val'): return 'val'
+    return 'other'
+
+
+def fault_icc(kind):
+    return kind.endswith('icc')
 DISC = ['d1001', 'dn', 'd1000', 'd4000']
 
 
@@ -297,9 +329,55 @@ def gen_doc(rnd, depth=0):
     if k in (4, 5): return gen_text(rnd, 6)
     if k in (6, 7): return [gen_doc(rnd, depth + 1) for _ in range(rnd.randrange(4))]
     d = {}
-    for _ in range(rnd.randrange(4)):
-        d[gen_text(rnd, 3)] = gen_doc(rnd, depth + 1)
+    mixed = rnd.random() < 0.3        # positional rows plus named members: int and str keys in one object (JSON writes an int key as its decimal string)
+    for _ in range(rnd.randrange(5 if mixed else 4)):
+        k = rnd.choice(INT_KEYS) if (mixed and rnd.random() < 0.5) else gen_text(rnd, 3)
+        if any(json_key(k) == json_key(k2) for k2 in d): continue          # the members of the document stay distinct on the wire
+        d[k] = gen_doc(rnd, depth + 1)
     return d
+
+
+INT_KEYS = [0, 1, 2, 10, -1, 2023, 2024]
+
+
+def doc_shape(doc):
+    """does the document contain an object whose members are not written in sorted order, or whose keys are of mixed types?"""
+    if isinstance(doc, dict):
+        ks = list(doc)
+        if len({type(k) for k in ks}) > 1 or [json_key(k) for k in ks] != sorted(json_key(k) for k in ks): return True
+        return any(doc_shape(v) for v in doc.values())
+    if isinstance(doc, list): return any(doc_shape(v) for v in doc)
+    return False
+
+
+def json_key(k):
+    """the member name JSON writes for a Python dict key (RFC 8259 objects have string names; json: 'keys are coerced to strings')"""
+    if k is True: return 'true'
+    if k is False: return 'false'
+    if k is None: return 'null'
+    return k if isinstance(k, str) else str(k)
+
+
+def ordered(v):
+    """an ORDER-PRESERVING, type-exact reading of a document: objects as the list of their (member name, value) pairs in the order they are
+    written (== on dicts cannot see a reordering), arrays as lists, scalars with their type (True is not 1)"""
+    if isinstance(v, dict): return ('obj', [(json_key(k), ordered(x)) for k, x in v.items()])
+    if isinstance(v, (list, tuple)): return ('arr', [ordered(x) for x in v])
+    return (type(v).__name__, v)
+
+
+def read_ordered(text):
+    """the document a peer reads from the wire text, members in wire order"""
+    import json
+
+    class Pairs(list):
+        pass
+
+    def conv(v):
+        if isinstance(v, Pairs): return ('obj', [(k, conv(x)) for k, x in v])
+        if isinstance(v, list): return ('arr', [conv(x) for x in v])
+        return (type(v).__name__, v)
+    return conv(json.loads(text, object_pairs_hook=Pairs))
 
 
 def dumps(doc):
@@ -433,9 +511,31 @@ def gen_random(rnd):
         'mw_present': mw, 'script': script, 'custom': custom, 'inbox': inbox, 'starve': starve,
         'events': [gen_event(rnd, t, binh) for t in inbox], 'wp_only': False,
         'fail': rnd.choice([None, None, None, 0, 1, 2, 3, 4]), 'fault': rnd.choice(FAULTS),
+        'refuse': rnd.choice(REFUSE_SETS) if rnd.random() < 0.3 else [],
         'err': rnd.choice([1011, 1011, 1011, 4000, 999, 1005, 1006, 1007, 1014, 1015, 1999, 2000, 1004, 1003]), 'binh': binh,
         'yields': rnd.randrange(1 << 30),
     }
+
+
+def gen_server_directed():
+    """the SERVER's behaviour as the input: every fault kind (class x message) x error_close_code valid / reserved x close-code policy x how the
+    responder / middleware ends (unexpected exception before / after accept, foreign WebSocketDisconnected, HTTP error, plain return, own close that is refused) x queue 0 / 4"""
+    kinds = ['os', 'osicc', 'val', 'valicc', 'other', 'excicc', 'type', 'typeicc', 'custom', 'customicc', 'ok1000', 'sub', 'os1001']
+    endings = [('r', [], [('X', 0)]), ('r', [], [('A000', 1), ('X', 0)]), ('r', [], [('A000', 1), ('St', 1), ('Ewsd1001', 0)]), ('r', [('B', 0)], []),
+               ('r', [], [('A000', 1)]), ('r', [], [('A000', 1), ('H403', 0)]), ('u', [], []), ('r', [], [('A000', 1), ('C1011', 2), ('B', 0)]),
+               ('r', [], [('A000', 1), ('C1011', 1), ('St', 1)])]
+    j = 0
+    for kind in kinds:
+        for err in (1011, 4000, 999):
+            for refuse in ([1011], [1001, 1003, 1007, 1011, 1014, 2000], [1011, 3011], [1000, 4000, 3403, 3404]):
+                for route, mwreq, script in endings:
+                    j += 1
+                    q = (0, 4)[j % 2]
+                    mk = lambda toks: [{'tok': t, 'catch': c, 'var': (j + i) % 4, 'pay': default_pay(i)} for i, (t, c) in enumerate(toks)]
+                    inbox = ['t0', 'd1001'] if j % 3 else ['t1', 'b', 't1', 't1', 'dn']
+                    yield {'ver': ('2.0', '2.1', '2.3', '2.4')[j % 4], 'q': q, 'first': 1, 'route': route, 'mwreq': mk(mwreq), 'mwres': [], 'mw_present': bool(mwreq),
+                           'script': mk(script), 'custom': None, 'inbox': inbox, 'events': [default_event(t, k) for k, t in enumerate(inbox)], 'wp_only': False,
+                           'starve': 'late', 'fail': None, 'fault': kind, 'refuse': list(refuse), 'err': err, 'binh': False, 'yields': 4242 + j}
 
 
 def gen_payload_session(rnd):
@@ -571,12 +671,27 @@ def run(ctx):
         return 'PY'
     CATCH = (errors.OperationNotAllowed, errors.WebSocketDisconnected, errors.PayloadTypeError, ValueError)
 
-    def mkfault(kind):
+    class ServerRefusal(Exception):
+        """the server's own exception class"""
+
+    def mkfault(kind, m=None):
+        """what the server's send raises: class x message are independent (the `icc` kinds say 'invalid close code', as Autobahn does for a
+        close code it does not let applications use)"""
+        code = (m or {}).get('code', 1011)
+        icc = 'invalid close code %s (must be 1000 or from [3000, 4999])' % code
         if kind == 'os': return OSError('send failed')
         if kind == 'os1001':
             e = OSError('connection lost'); e.__cause__ = Exception('received 1001 (going away); then sent 1001 (going away)'); return e
         if kind == 'ok1000': return Exception('sent 1000 (OK); then received: code = 1000 (OK), no reason')
         if kind == 'sub': return Exception('protocol accepted must be from the list of client protocols')
+        if kind == 'osicc': return OSError('Invalid Close Code: %s' % code)
+        if kind == 'val': return ValueError('the server does not take this event')
+        if kind == 'valicc': return ValueError(icc.capitalize())
+        if kind == 'excicc': return Exception(icc)
+        if kind == 'type': return TypeError('unexpected event')
+        if kind == 'typeicc': return TypeError('INVALID CLOSE CODE %s' % code)
+        if kind == 'custom': return ServerRefusal('event refused')
+        if kind == 'customicc': return ServerRefusal(icc)
         return RuntimeError('server send exploded')
 
     def render(m):
@@ -655,7 +770,10 @@ def run(ctx):
                 await asyncio.get_running_loop().create_future()
             if spec['fail'] is not None and i == spec['fail']:
                 call['ok'] = False
-                raise mkfault(spec['fault'])
+                raise mkfault(spec['fault'], m)
+            if m.get('type') == 'websocket.close' and m.get('code') in spec.get('refuse', ()):
+                call['ok'] = False; call['refused'] = True       # the server's policy: it does not let applications use this close code
+                raise mkfault(spec['fault'], m)
             call['ok'] = True
 
         def flag(ws):
@@ -942,9 +1060,13 @@ def run(ctx):
     def fail_fault(spec, o):
         """the failing server send of the model: the injected fault, or the send the responder cancelled in flight"""
         can = [c['i'] for c in o['calls'] if c.get('cancelled')]
-        if can and spec['fail'] is None and len(can) == 1: return str(can[0]), 'other'
+        if can and spec['fail'] is None and len(can) == 1 and not spec.get('refuse'): return str(can[0]), 'other'
         if can: return 'unmodelled', 'other'
-        return ('-' if spec['fail'] is None else str(spec['fail'])), spec['fault']
+        return ('-' if spec['fail'] is None else str(spec['fail'])), fault_class(spec['fault'])
+
+    def server_words(spec):
+        """the server's behaviour beyond the faulty call: does its exception say 'invalid close code', which close codes does its policy refuse"""
+        return f"icc={1 if fault_icc(spec['fault']) else 0} refuse={','.join(map(str, spec.get('refuse', [])))}"
 
     def tokens(steps, recs):
         out = []
@@ -961,7 +1083,7 @@ def run(ctx):
         cu = spec['custom']
         fail, fault = fail_fault(spec, o)
         line = (f"case supH={0 if spec['ver'] == '2.0' else 1} supR={1 if ver >= (2, 3) else 0} err={spec['err']} bin={1 if spec['binh'] else 0} "
-                f"fail={fail} fault={fault} q={1 if spec['q'] else 0} first={spec['first']} "
+                f"fail={fail} fault={fault} {server_words(spec)} q={1 if spec['q'] else 0} first={spec['first']} "
                 f"route={spec['route']} inbox={','.join(inbox)} reasons={','.join(map(str, o['reasons']))} "
                 f"mwreq={tokens(spec['mwreq'], by['mwreq'])} mwres={tokens(spec['mwres'], by['mwres'])} "
                 f"script={tokens(spec['script'], by['responder'])} custom={'none' if cu is None else 'h:' + tokens(cu['steps'], by['handler'])} "
@@ -1018,7 +1140,7 @@ def run(ctx):
         cu = spec['custom']
         fail, fault = fail_fault(spec, o)
         line = (f"case supH={0 if spec['ver'] == '2.0' else 1} supR={1 if ver >= (2, 3) else 0} err={spec['err']} bin={1 if spec['binh'] else 0} "
-                f"fail={fail} fault={fault} q={1 if spec['q'] else 0} first={spec['first']} "
+                f"fail={fail} fault={fault} {server_words(spec)} q={1 if spec['q'] else 0} first={spec['first']} "
                 f"route={spec['route']} inbox={','.join(in_tok(e) for e in spec['events'] if e['type'] != 'idle')} reasons={','.join(map(str, o['reasons']))} "
                 f"mwreq={tokens_wp(spec, spec['mwreq'], by['mwreq'])} mwres={tokens_wp(spec, spec['mwres'], by['mwres'])} "
                 f"script={tokens_wp(spec, spec['script'], by['responder'])} custom={'none' if cu is None else 'h:' + tokens_wp(spec, cu['steps'], by['handler'])} "
@@ -1069,13 +1191,15 @@ def run(ctx):
     def fault_outcome(spec, on_close):
         """documented translation of a failing server send: (exception seen by the caller, socket becomes closed?, WSD code)"""
         k = spec['fault']
+        # the server's exception as the caller sees it when nothing translates it: by its class (and, for a ValueError, what its message says)
+        raw = 'OSE' if k.startswith('os') else ('VEI' if k == 'valicc' else 'VEO' if k == 'val' else 'PY')
         if on_close:
-            return ('OSE' if k.startswith('os') else 'PY', False, None)       # close() does not translate
-        if k == 'os': return ('WSD:1000', True, 1000)
+            return (raw, False, None)       # close() does not translate
+        if k in ('os', 'osicc'): return ('WSD:1000', True, 1000)      # an OSError is a lost connection, whatever it says
         if k == 'os1001': return ('WSD:1001', True, 1001)
         if k == 'ok1000': return ('WSD:1000', True, 1000)
         if k == 'sub': return ('VEO', True, None)
-        return ('PY', False, None)
+        return (raw, False, None)
 
     def oracle_table(spec, o):
         """(state, operation) -> documented outcome; payloads received unchanged, in order; exactly the expected server events."""
@@ -1161,11 +1285,19 @@ def run(ctx):
                     if err: return err
                     m = calls[0]['m']; kind, val = r['submitted']
                     good = ((kind == 'text' and m.get('text') == val and m.get('bytes') is None) or
-                            (kind == 'media' and m.get('bytes') is None and isinstance(m.get('text'), str) and json.loads(m['text']) == val) or
+                            # a document arrives unchanged: the peer reads the same members with the same values IN THE SAME ORDER (dict == is blind to a reordering)
+                            (kind == 'media' and m.get('bytes') is None and isinstance(m.get('text'), str) and read_ordered(m['text']) == ordered(val)) or
                             (kind == 'bytes' and m.get('bytes') == val and type(m['bytes']) is bytes and m.get('text') is None) or
-                            (kind == 'binmedia' and type(m.get('bytes')) is bytes and m['bytes'][:2] == b'\x00J' and json.loads(m['bytes'][2:].decode('utf-8')) == val
+                            (kind == 'binmedia' and type(m.get('bytes')) is bytes and m['bytes'][:2] == b'\x00J' and read_ordered(m['bytes'][2:].decode('utf-8')) == ordered(val)
                              and m.get('text') is None))
-                    if not good: return f'{where}: payload {val!r} ({kind}) reached the server as {m!r}'
+                    if not good:
+                        how = ''
+                        if kind in ('media', 'binmedia'):
+                            try:
+                                txt = m['text'] if kind == 'media' else m['bytes'][2:].decode('utf-8')
+                                if json.loads(txt) == json.loads(dumps(val)): how = ' (same members, written in another ORDER)'
+                            except Exception: pass  # noqa
+                        return f'{where}: payload {val!r} ({kind}) reached the server as {m!r}{how}'
                     if abandon:
                         # the server had not taken the event when the responder cancelled the call: nothing was delivered, the socket is as it was
                         if not calls[0].get('cancelled'): return f'{where}: harness error (the send to be cancelled was not held by the server)'
@@ -1223,12 +1355,13 @@ def run(ctx):
                             # outside the ASGI spec (two payloads): the statement does not say which handler is used; either is accepted
                             want, exp = via_text()
                             alt = via_bytes()
-                            if out == alt[0] and (out != 'ok' or (r.get('value') == alt[1] and type(r.get('value')) is type(alt[1]))):
+                            if out == alt[0] and (out != 'ok' or (r.get('value') == alt[1] and type(r.get('value')) is type(alt[1]) and ordered(r.get('value')) == ordered(alt[1]))):
                                 want, exp = alt
                         elif text is not None: want, exp = via_text()
                         elif data is not None: want, exp = via_bytes()
                         else: want = 'PTE'
-                        if out == 'ok' and want == 'ok' and (r.get('value') != exp or type(r.get('value')) is not type(exp)):
+                        if out == 'ok' and want == 'ok' and (r.get('value') != exp or type(r.get('value')) is not type(exp)
+                                                              or (tok == 'Rm' and ordered(r.get('value')) != ordered(exp))):
                             return f'{where}: client message #{nxt - 1} {ev!r} arrived as {r.get("value")!r}'
                 if out != want: return f'{where}: got {out}, the documented outcome is {want}'
             elif k == 'C':
@@ -1319,21 +1452,47 @@ def run(ctx):
             if tail: return f"socket already closed/lost, yet the framework sent {[c['r'] for c in tail]}"
             if o['esc'] != '-': return f"{o['esc']} escaped to the server although no server send failed in the framework's own close"
             return None
-        # still connected: a close (or 403 denial) must be attempted with the documented code
-        if not tail: return f"responder ended ({ending}: {raised}) without closing while the client is still connected, but no close event was sent"
-        if tail[0]['m'].get('code') != expect: return f"ending {ending} ({raised}): close code {tail[0]['m'].get('code')} sent, documented code is {expect}"
-        if tail[0]['ok']:
-            if len(tail) > 1: return f"more than one close event: {[c['r'] for c in tail]}"
-            if o['esc'] != '-': return f"{o['esc']} escaped to the server although the close was delivered"
-            return None
-        # the close itself failed at the server
+        # still connected: a close (or 403 denial) must be attempted with the documented code - and the SERVER may refuse it (any exception class):
+        # a refusal that names the close code as the reason ('invalid close code', as Autobahn/Daphne do for 1011) makes the framework's error
+        # close fall back to 3011; whenever a close is delivered nothing escapes; if none can be delivered the failure is reported to the server
+        icc = fault_icc(spec['fault'])
+        pos = [0]
+
+        def attempt(code, why):
+            """the next event of the tail must be a close with `code`; -> (delivered?, error text)"""
+            if pos[0] >= len(tail):
+                return None, (f"responder ended ({ending}: {raised}) without closing while the client is still connected, but no close event was sent" if pos[0] == 0 else
+                              f"{why}, but the framework did not try close code {code}: the server saw only {[c['r'] + ('' if c['ok'] else '!') for c in tail]}"
+                              + (f" and {o['esc']} escaped" if o['esc'] != '-' else ''))
+            c = tail[pos[0]]
+            if c['m'].get('code') != code:
+                return None, (f"ending {ending} ({raised}): close code {c['m'].get('code')} sent, documented code is {code}" if pos[0] == 0 else
+                              f"{why}: close code {c['m'].get('code')} sent, expected {code}")
+            pos[0] += 1
+            return c['ok'], None
+
+        def error_close():
+            """the close of an unexpected error: error_close_code (3011 when falcon itself rejects that code); -> (delivered?, error text)"""
+            if valid_code(spec['err']):
+                ok, bad = attempt(spec['err'], 'an unexpected error closes the socket with error_close_code')
+                if bad or ok: return ok, bad
+                if not icc: return False, None       # the server failed without naming the code: nothing more is demanded
+                return attempt(3011, f"the server refused close code {spec['err']} saying 'invalid close code' ({type(mkfault(spec['fault'])).__name__})")
+            return attempt(3011, 'error_close_code is not a valid close code')
         if ending == 'return':
-            if len(tail) != 2 or tail[1]['m'].get('code') != errcode: return f"final close failed at the server; expected a second close with {errcode}, saw {[c['r'] for c in tail]}"
-            if not tail[1]['ok']: return 'harness error: two failing sends'
-            if o['esc'] != '-': return f"{o['esc']} escaped to the server although the second close was delivered"
+            delivered, bad = attempt(1000, 'the responder returned')
+            if not bad and not delivered:
+                delivered, bad = error_close()          # the failed close is an unexpected error like any other
+        elif ending == 'http':
+            delivered, bad = attempt(expect, 'HTTP error / status')
+        else:
+            delivered, bad = error_close()
+        if bad: return bad
+        if pos[0] != len(tail): return f"unexpected further events after the close attempts: {[c['r'] + ('' if c['ok'] else '!') for c in tail]}"
+        if delivered:
+            if o['esc'] != '-': return f"{o['esc']} escaped to the server although the close {tail[-1]['r']} was delivered"
             return None
-        if len(tail) != 1: return f"close issued by an error handler failed; unexpected further events {[c['r'] for c in tail]}"
-        if o['esc'] == '-': return 'the close issued by the error handler failed at the server but nothing was reported to the server'
+        if o['esc'] == '-': return 'no close could be delivered (every attempt failed at the server) but nothing was reported to the server'
         return None
 
     sess = ctx.session('falcon.asgi.App websocket session = Ws model (handleMw)', 'wsdriver')
@@ -1355,6 +1514,7 @@ def run(ctx):
             sess.case({'spec': {k: v for k, v in spec.items() if k != 'yields'}, 'origin': origin})
             sess.op(line, reply)
         case = {k: spec[k] for k in ('ver', 'q', 'first', 'route', 'inbox', 'events', 'starve', 'fail', 'fault', 'err', 'binh', 'mw_present', 'yields')}
+        case['server'] = {'close_codes_refused': spec.get('refuse', []), 'send_raises': repr(mkfault(spec['fault'], {'code': spec['err']})), 'at_call': spec['fail']}
         def shown(s):
             base = (s['tok'], s['catch'], s['var'], s['pay'])
             if s['tok'] == 'Ag': return ('Ag', s['catch'], s['var'], {'subprotocol': s['acc']['sub'], 'headers_container': s['acc']['container'], 'header_items': s['acc']['items']})
@@ -1391,7 +1551,17 @@ def run(ctx):
         ctx.seen(line, bool(o['calls']))
         ctx.count('q_%d' % spec['q']); ctx.count('ver_' + spec['ver']); ctx.count('origin_' + origin)
         ctx.count('route_' + spec['route'])
-        if spec['fail'] is not None and any(c['ok'] is False for c in o['calls']): ctx.count('send_fault_hit_' + spec['fault'])
+        if spec['fail'] is not None and any(c['ok'] is False and not c.get('refused') for c in o['calls']): ctx.count('send_fault_hit_' + spec['fault'])
+        refused = [c for c in o['calls'] if c.get('refused')]
+        if refused:
+            ctx.count('server_refused_a_close_code_raising_' + spec['fault'])
+            n_script_calls = max([r['c1'] for r in o['steps']], default=0)
+            if any(c['i'] >= n_script_calls for c in refused):
+                ctx.count('server_refused_the_framework_own_close_' + ('naming_the_code_' if fault_icc(spec['fault']) else 'without_naming_the_code_') + type(mkfault(spec['fault'])).__name__)
+                if o['calls'][-1]['ok'] and o['calls'][-1]['m'].get('code') == 3011: ctx.count('fallback_3011_delivered_after_a_refused_close')
+        if any(r['tok'] in ('St', 'Sb') and r.get('submitted', ('',))[0] in ('media', 'binmedia') and r['outcome'] == 'ok' and isinstance(r['submitted'][1], (dict, list))
+               and doc_shape(r['submitted'][1]) for r in o['steps']):
+            ctx.count('media_document_sent_with_unsorted_or_mixed_type_keys')
         if spec['custom'] is not None and any(r['who'] == 'handler' for r in o['steps']) or (spec['custom'] is not None and spec['custom']['steps'] == [] and 'BOOM' in [r['outcome'] for r in o['steps']]):
             ctx.count('custom_handler_ran')
         if spec['mwreq'] or spec['mwres']: ctx.count('with_ws_middleware')
@@ -1525,6 +1695,9 @@ def run(ctx):
         for j, spec in enumerate(gen_abandon_directed()):
             if j % k == i:
                 await one(spec, 'abandon_directed')
+        for j, spec in enumerate(gen_server_directed()):
+            if j % k == i:
+                await one(spec, 'server_directed')
         maxlen = 2 if ctx.quick else 3
         for j, spec in enumerate(gen_exhaustive(maxlen)):
             if j % k == i:
@@ -1537,7 +1710,8 @@ def run(ctx):
 
 LEVEL_TEXT = ('Machine-checked proofs (Lean 4) over an executable model that transcribes falcon/asgi/ws.py (accept/close/send_*/receive_*, _send with the server-error '
               'translation, _require_accepted, close-code validation, reason/header support by spec version) and App._handle_websocket with WebSocket middleware, '
-              'the default error handlers, _ws_cleanup_on_error and a custom handler: for every script, client script, fault position/kind, configuration and '
+              'the default error handlers, _ws_cleanup_on_error (incl. its fallback to 3011 when the exception of close() - falcon\'s own or the SERVER\'s, of any class - says \'invalid close code\': '
+              'the server is modelled with a faulty call index, a close-code policy and an exception class + message flag; refused_error_close_falls_back) and a custom handler: for every script, client script, fault position/kind, configuration and '
               'every sequence of observed disconnect-flag values the events accepted by the server are a word of the ASGI send-side automaton '
               '(emitted_trace_legal[_mw]); a session that returns normally is closed, denied or known lost (closed_unless_escaped[_mw]); no close reason reaches a server '
               'that does not support it (reason_only_if_supported); the wrong-state error table, the close-code table and the error -> close-code mapping are theorems (incl. raised_error_closes_open_socket: an exception of a framework class - a WebSocketDisconnected '
